@@ -236,10 +236,12 @@ def argnums_rules(ctx, world):
 def layout(ctx, world):
     ctx.describe("A2.layout", "sequence_extend_right/left: the primitive's body fixes the segment layout ([SEQ, ELTS] or [ELTS, SEQ]); the VJP slice for argnum 0 and the element index for argnum k select exactly those segments (linear index forms over len(seq), len(elts), argnum)")
     m = world.repo.mod("autograd.builtins")
+    found = 0
     for name in ("sequence_extend_right", "sequence_extend_left"):
         ref = world.repo.resolve(m, name)
         if ref is None or ref.kind != "repo" or not isinstance(ref.node, ast.FunctionDef):
-            raise AnalysisError(f"builtins.{name} vanished")
+            continue  # concatenation is implemented by other primitives: their wiring is decided by A14.containers
+        found += 1
         fn = ref.node
         seqp = fn.args.args[0].arg
         rets = [s for s in ast.walk(fn) if isinstance(s, ast.Return)]
@@ -291,6 +293,8 @@ def layout(ctx, world):
                 f"the primitive lays its result out as [{lay}] but the rule selects argnum 0 with {f0} and element k with {fk} (expected {want0} / {wantk}); forms are (a*len(seq) + b*len(elts) + c*argnum + d)",
                 "a sequence of length >= 2 extended by >= 2 elements, all differentiated",
             )
+    if not found:
+        ctx.ob("A2.layout", "no variadic sequence_extend primitive in builtins (concatenation wiring: A14.containers)", True, "autograd/builtins.py", nontrivial=False)
 
 
 def _lin(t, names):
@@ -348,3 +352,53 @@ def _index_forms(ev, result):
         return ("index", _lin(i, None))
 
     return form(t.then), form(t.other)
+
+
+def positional_selection(ctx, world):
+    """A2.slot-by-position: a rule of a variadic primitive (defvjp_argnum / defjvp_argnum and the whole-argnums
+    forms) finds "its" operand by POSITION (an index compared with argnum).  Selecting it by identity or equality of
+    operand values (`arr is args[argnum]`, `arr == target`) also matches every other position that holds the same
+    object - f(x, x), or a constant that happens to be the evaluation point."""
+    from ..terms import walk as _walk
+    from ..tutil import expand, unseq
+
+    ctx.describe("A2.position", "inside the rule of a variadic primitive no comparison by identity / equality has operand values on BOTH sides (`arr is args[argnum]`): the differentiated slot is addressed by its index; a call such as concatenate((x, x)) holds one object in two positions")
+    n = 0
+    for e in world.table.entries:
+        if e.api not in ("defvjp_argnum", "defjvp_argnum", "defvjp_argnums", "defjvp_argnums") or e.spec != "maker" or not world.in_numpy_scope(e):
+            continue
+        ir = world.ir(e)
+        inst = construct_of(e)
+        if ir is None or not ir.ok:
+            continue
+        n += 1
+        res = unseq(expand(world.ev, ir.result, ())) if ir.result is not None else None
+        made = unseq(expand(world.ev, ir.made, ())) if ir.made is not None and ir.made is not ir.result else None
+
+        def operand(t):
+            """a value taken from the primitive's positional arguments (not an index, length, shape or constant)"""
+            if t.op in ("const", "sym"):
+                return False
+            if t.op == "call" or t.op == "attr":
+                return False  # len(..), shape(..), x.ndim ...: derived scalars
+            has_args = False
+            for x in _walk(t):
+                if x.op in ("rest", "arg") or (x.op == "sym" and x.get("role") in ("args",)):
+                    has_args = True
+            return has_args
+
+        bad = None
+        for root in (res, made):
+            if root is None:
+                continue
+            for x in _walk(root):
+                if x.op == "cmp" and x.opname in ("Is", "IsNot", "Eq", "NotEq") and operand(x.l) and operand(x.r) and bad is None:
+                    bad = x
+        if bad is None:
+            ctx.ob("A2.position", inst, True, e.loc)
+        else:
+            from ..model import norm_text
+
+            txt = norm_text(bad.node)[:60] if bad.node is not None else str(bad)[:60]
+            ctx.fail("A2.position", inst, f"{e.mode}:{e.prim_id}|operand-identity", e.loc, f"the rule decides with `{txt}`, a comparison of two operand VALUES, which slot it differentiates: every position holding the same object is selected", "the primitive called with the same array in two positions (concatenate((x, x)), vstack((X, X))) or with a constant that is the evaluation point itself")
+    ctx.floor("A2.position variadic rules", n, 4)
